@@ -1522,7 +1522,7 @@ CHECKS["C13"] = Spec(
     keep=("res", "img"),
     aspects=("map", "dir"),
     witnesses=["C13-freelist-exact", "F12b-writer-inside-commit-then-crash"],
-    skeleton=["C06", "C05"],      # the concurrency theorem of C13 rests on the key lock (wf_C05) and the compare-and-swap protocol (wf_C06)
+    skeleton=["C06", "C05", "C13"],      # the concurrency theorem of C13 rests on the key lock (wf_C05) and the compare-and-swap protocol (wf_C06); the hand-over model on wf_C13
     tools=["sthdrive", "witness", "concdrive"],
     extra=_c13_conc,
     nontrivial=lambda t, r: _count_ops(t, ("flush",)) >= 1 and any(((x.get("extra") or {}).get("blk_before") or "") != "" and (x.get("extra") or {}).get("blk_after") != (x.get("extra") or {}).get("blk_before") for x in r),
@@ -1581,6 +1581,7 @@ SKEL_GOALS = {
     "C06": "wf_C06 skel_Store_Get skel_Store_Has skel_Store_GetSize skel_Store_Put skel_Store_Remove skel_primaryGC_reapRecords skel_primaryGC_gc",
     "C09": "wf_C09 skel_OpenStore skel_translateIndex skel_finishIndexTranslation",
     "C10": "wf_C10 skel_remapIndex",
+    "C13": "wf_C13 skel_FreeList_ToGC skel_processFreeList",
     "C14": "wf_C14 [skel_FileCache_Open; skel_FileCache_Close; skel_FileCache_Remove; skel_FileCache_Clear; skel_FileCache_SetCacheSize; skel_FileCache_Len; skel_FileCache_Cap]",
 }
 
